@@ -267,6 +267,7 @@ func cmdSelftest() int {
 		x, y := ts.Var("x", 64), ts.Var("y", 64)
 		// x+y == y+x is valid; x-y == y-x is not
 		r1, _, _ := s.Check([]*Term{ts.Ne(ts.Bin(OpAdd, x, y), ts.Bin(OpAdd, y, x))}, nil)
+		s.stack = nil
 		r2, m, _ := s.Check([]*Term{ts.mk(OpNot, 0, 0, "", ts.mk(OpEq, 0, 0, "", ts.mk(OpSub, 64, 0, "", x, y), ts.mk(OpSub, 64, 0, "", y, x)))}, []*Term{x, y})
 		s.Close()
 		if r1 != Unsat || r2 != Sat {
